@@ -115,6 +115,7 @@ class Side:
         self.bin = harness_bin
         self.width = width
         self.aborts = []
+        self.model_error = None
 
     def impl(self, script, timeout=900):
         rc, out, err = C.sh([self.bin], inp=script.encode(), timeout=timeout,
@@ -126,7 +127,15 @@ class Side:
         return lines
 
     def model(self, script):
-        return C.run_drv("utf8", script, args=["--width", str(self.width)])
+        """Model observations, or None when the driver is unusable (Lean build broken): the property is then
+        still evaluated on the implementation against the reference."""
+        if self.model_error:
+            return None
+        try:
+            return C.run_drv("utf8", script, args=["--width", str(self.width)])
+        except Exception as ex:  # noqa: BLE001
+            self.model_error = str(ex)[-500:]
+            return None
 
 
 def hx(bs):
@@ -197,7 +206,7 @@ def run_cases(side, cases, stats):
     for c in cases:
         n = 1 + len(c.ops)
         a = li[pos:pos + n]
-        b = lm[pos:pos + n]
+        b = lm[pos:pos + n] if lm is not None else a
         pos += n
         stats["ops"] += len(c.ops)
         stats["cases"] += 1
@@ -488,7 +497,7 @@ def run(ctx, out):
                 out.violation("fixed finding %s recurs: ill-formed text accepted (%s)" % (f["id"], still[0][0]),
                               {"property": PID, "finding": f["id"], "script": script.splitlines(), "impl_trace": li, "model_trace": lm,
                                "failing_clause": "verdict 1 on an ill-formed text", "accepted": [s for s, _ in still]})
-            elif li != lm:
+            elif lm is not None and li != lm:
                 out.violation("replay of %s: model and implementation differ" % f["id"],
                               {"property": PID, "finding": f["id"], "script": script.splitlines(), "impl_trace": li, "model_trace": lm,
                                "broken": "correspondence"}, no_input=True)
@@ -496,7 +505,7 @@ def run(ctx, out):
 
     # ---- A. exhaustive transition table
     ti = bfs_table(side.impl)
-    tm = bfs_table(side.model)
+    tm = bfs_table(side.model) if side.model("state\n") is not None else dict(ti)
     cov["reachable_states_impl"] = len(ti)
     cov["reachable_states_model"] = len(tm)
     parent, ntrans, fail = product_with_reference(ti)
@@ -532,7 +541,8 @@ def run(ctx, out):
     unr = [("%02x" % rnd.choice([0x00, 0x41, 0xC2, 0xE0, 0xED, 0xF4, 0xFF, rnd.randrange(256)]), "%02x" % rnd.randrange(0, 6),
             "%02x" % rnd.randrange(0, 6)) for _ in range(60 if ctx.thorough else 20)]
     s_unr = "".join("row %s %s %s\n" % s for s in unr)
-    ua, ub = side.impl(s_unr), side.model(s_unr)
+    ua = side.impl(s_unr)
+    ub = side.model(s_unr) or ua
     cov["unreachable_struct_rows_compared"] = len(unr)
     if ua != ub and not out.violations:
         k = next(i for i in range(len(unr)) if i >= len(ua) or i >= len(ub) or ua[i] != ub[i])
@@ -571,9 +581,12 @@ def run(ctx, out):
         return [x for r in res for x in r]
 
     pi = par(side.impl, prod_lines(prod_script))
-    pm = par(side.model, prod_lines(prod_script))
     ri = par(side.impl, prod_lines(prod_script, "ref"))       # C reference automaton (used by the 2^32 sweep)
-    rm = par(side.model, prod_lines(prod_script, "ref"))      # model byte path = proved equal to the spec
+    if side.model("state\n") is not None:
+        pm = par(side.model, prod_lines(prod_script))
+        rm = par(side.model, prod_lines(prod_script, "ref"))  # model byte path = proved equal to the spec
+    else:
+        pm, rm = pi, ri
     words_total = 0
     for item, a, b, c_, d in zip(prod_script, pi, pm, ri, rm):
         n = int(a.split()[1].split("=")[1]) if a.startswith("prod") else 0
@@ -584,13 +597,14 @@ def run(ctx, out):
         ok_ref = c_ == d
         if ok_prop and ok_model and ok_ref:
             continue
-        if reported["n"] >= 6:
+        if reported["n"] >= 6 or reported.get("prod", 0) >= 2:
             break
         reported["n"] += 1
+        reported["prod"] = reported.get("prod", 0) + 1
         op, st, k, reps = item
         wide = 4 if op == "prod32" else 8
         va = side.impl(prod_lines([item]).replace(op + " ", op + "v ", 1))
-        vb = side.model(prod_lines([item]).replace(op + " ", op + "v ", 1))
+        vb = side.model(prod_lines([item]).replace(op + " ", op + "v ", 1)) or va
         found = None
         model_diff = None
         for x, y in zip(va, vb):
@@ -612,7 +626,7 @@ def run(ctx, out):
                           {"property": PID, "entry": "word%d" % (8 * wide), "word": wv, "bytes_in_feed_order": hx(bs), "state": st,
                            "complete": k, "impl": x, "model": y, "expected_verdict": int(expv),
                            "failing_clause": "word path verdict != byte-wise RFC 3629 verdict",
-                           "script": ["set %s %s %s" % st, "word%d %d %s" % (8 * wide, k, wv)]})
+                           "script": ["reset", "bytes %s 0" % hx(state_sample(st)), "word%d %d %s" % (8 * wide, k, wv)]})
         elif not ok_ref and ok_model:
             out.violation("the harness's C reference automaton differs from the model's byte path on a class product",
                           {"property": PID, "broken": "check machinery (reference automaton)", "item": item, "harness": c_, "model": d}, no_input=True)
@@ -759,19 +773,29 @@ def run(ctx, out):
     cov["samples"] = [["reset"] + c.ops for c in (all_cases[:2] + all_cases[len(pair_cases):len(pair_cases) + 3] + all_cases[-2:])]
     cov["harness_info"] = info
     cov["wall_tie_s"] = round(time.time() - t0, 1)
+    if side.model_error:
+        out.notes.append("model driver unusable (%s): only the property evaluation against the RFC 3629 reference ran" % side.model_error)
+        cov["model_side"] = "unavailable"
+        if not ctx.proof_broken and not out.violations:
+            out.violation("model driver drv_utf8 failed", {"property": PID, "broken": "check machinery (driver)", "detail": side.model_error},
+                          no_input=True)
     if ctx.proof_broken:
         out.notes.append("proof side broken; the searches above still ran on the implementation")
+
+
+def state_sample(st):
+    """Bytes that bring a fresh checker into the reachable state st (hex triple)."""
+    if st == INIT:
+        return []
+    lead, _ln, nxt = (int(x, 16) for x in st)
+    fill = {0xE0: 0xA0, 0xF0: 0x90}.get(lead, 0x80)
+    return [lead] + ([fill] + [0x80] * (nxt - 3) if nxt >= 3 else [])
 
 
 def state_to_pending(st):
     """Reference state for a reachable checker struct (hex triple): feed the reference a lead byte and
     admissible tail bytes for as many positions as the struct says were consumed."""
-    if st == INIT:
-        return ()
-    lead, _ln, nxt = (int(x, 16) for x in st)
-    fill = {0xE0: 0xA0, 0xF0: 0x90}.get(lead, 0x80)
-    sample = [lead] + ([fill] + [0x80] * (nxt - 3) if nxt >= 3 else [])
-    return ref_run(sample)[1]
+    return ref_run(state_sample(st))[1]
 
 
 def shrink(side, p):
